@@ -291,10 +291,11 @@ PROPS["C13"] = dict(
     "(back-pressure) and a stalling reader. Clean sessions: reader bytes == writer bytes (self-identifying content), EOF only after shutdown, the ciphertext parses as "
     "<u16 len><len bytes> frames. For every clean session the data frames are then tampered one point at a time in fresh sessions with the same plan: bit flips in the length "
     "field / first / middle / last ciphertext byte / auth tag, truncation at each of those positions, dropped, duplicated, swapped and replayed frames; the reader's bytes must be a "
-    "prefix of the writer's followed by an error or EOF. Deadlocks are decided in virtual time.",
+    "prefix of the writer's followed by an error or EOF. Deadlocks are decided in virtual time. The writer is the noise initiator or the responder (which is in transport mode the moment it has written its handshake message), "
+    "waits for the reader's handshake or starts writing at once, and the reader's transport may answer its first read polls with Pending, so that the responder's handshake message and its first data frames arrive coalesced in one read.",
     assumptions=["snow (Noise implementation) and ChaChaPoly are trusted", "tamper points are enumerated per executed session (all frames in thorough, first/middle/last in quick); sessions are sampled"],
     stages=[dict(name="noise", flavour="release", **NET)],
-    floors={"quick": {"clean_sessions": 400, "tampered_sessions": 4000, "tamper_detected_by_reader": 3500, "sessions_with_back_pressure": 100, "sessions_with_maximal_frame": 100, "tamper_SwapWithNext": 50, "tamper_Replay": 50},
+    floors={"quick": {"clean_sessions": 400, "tampered_sessions": 4000, "tamper_detected_by_reader": 3500, "sessions_with_back_pressure": 100, "sessions_with_maximal_frame": 100, "tamper_SwapWithNext": 50, "tamper_Replay": 50, "sessions_written_by_the_responder": 200, "sessions_responder_writes_before_the_initiator_finished_its_handshake": 50},
             "thorough": {"tampered_sessions": 100000}},
 )
 
